@@ -103,6 +103,9 @@ def module_global(self, m, name):
     node = m.globals.get(name)
     if node is None:
         return sym(f'{m.name}.{name}')
+    if (m.name, name) in self.prog.mutated_globals():
+        # module-level STATE (some function modifies it): its value at a call depends on the calls made before
+        return Term.of(Atom('modstate', m.name, name))
     key = ('global', m.name, name)
     cache = self.__dict__.setdefault('_gcache', {})
     if key in cache:
